@@ -19,10 +19,21 @@
 -/
 namespace CogentModel.Prune
 
-/-- memoising identity on `Nat → R` (proved equal to `f` in `Proofs/Prune.lean`) -/
-def tabulate {R : Type} (m : Nat) (f : Nat → R) : Nat → R :=
+/-- a vector, wrapped in a structure so that compiled code evaluates it once per node
+(a bare function type would let the compiler push the memo table under the lambda) -/
+structure Vec (R : Type) where
+  get : Nat → R
+
+/- NOTE on `@[noinline]`: Lean's code generator moves a `let` that is used once into the
+lambda that uses it; every function that *consumes* a memoised vector is therefore a
+separate non-inlined function taking the vector as a parameter, which keeps the
+evaluation linear in the size of the tree (checked by timing in the harness). -/
+
+/-- memoising identity: `tabulate m f = ⟨f⟩` (proved in `Proofs/Prune.lean`); the values
+`f 0 … f (m-1)` are computed once and stored -/
+@[noinline] def tabulate {R : Type} (m : Nat) (f : Nat → R) : Vec R :=
   let arr := Array.ofFn (n := m) (fun i => f i.val)
-  fun i => if h : i < arr.size then arr[i] else f i
+  ⟨fun i => if h : i < arr.size then arr[i] else f i⟩
 
 /-- `res = 0; for i in range(m): res += f i`  (numba `inner_product`) -/
 def sumOver {R : Type} [Add R] [Zero R] : Nat → (Nat → R) → R
@@ -83,31 +94,35 @@ section pruning
 variable {R α : Type} [Add R] [Mul R] [Zero R] [One R]
 
 /-- `numpy.inner(child_plh, psub)`: the child's partial likelihoods seen from its parent -/
-def upWith (m : Nat) (P : Mat R) (v : Nat → R) : Nat → R :=
-  tabulate m (fun s => sumOver m (fun s' => P s s' * v s'))
+@[noinline] def upWith (m : Nat) (P : Mat R) (v : Vec R) : Vec R :=
+  tabulate m (fun s => sumOver m (fun s' => P s s' * v.get s'))
+
+/-- `result[col, motif] *= plhs[child_col, motif]` -/
+@[noinline] def mulVec (m : Nat) (u r : Vec R) : Vec R :=
+  tabulate m (fun s => u.get s * r.get s)
+
+/-- `numpy.inner(plh, mprobs)` -/
+@[noinline] def dot (m : Nat) (v : Vec R) (π : Nat → R) : R :=
+  sumOver m (fun s => v.get s * π s)
 
 mutual
 /-- partial likelihoods of a node, one alignment column (`prof a s` = leaf profile) -/
-def plh (m : Nat) (prof : α → Nat → R) : PTree R α → Nat → R
-  | .leaf _ a => prof a
-  | .node _ cs => tabulate m (prodUp m prof cs)
+def plh (m : Nat) (prof : α → Nat → R) : PTree R α → Vec R
+  | .leaf _ a => ⟨prof a⟩
+  | .node _ cs => prodUp m prof cs
 /-- product over the children (numba `sum_input_likelihoods`) -/
-def prodUp (m : Nat) (prof : α → Nat → R) : List (PTree R α) → Nat → R
-  | [] => fun _ => 1
-  | c :: cs =>
-    let u := upWith m c.mat (plh m prof c)
-    let r := prodUp m prof cs
-    fun s => u s * r s
+def prodUp (m : Nat) (prof : α → Nat → R) : List (PTree R α) → Vec R
+  | [] => ⟨fun _ => 1⟩
+  | c :: cs => mulVec m (upWith m c.mat (plh m prof c)) (prodUp m prof cs)
 end
 
 /-- a child's contribution seen from its parent -/
-def up (m : Nat) (prof : α → Nat → R) (c : PTree R α) : Nat → R :=
+def up (m : Nat) (prof : α → Nat → R) (c : PTree R α) : Vec R :=
   upWith m c.mat (plh m prof c)
 
 /-- column likelihood `numpy.inner(plh_root, root_mprobs)` -/
 def lh (m : Nat) (π : Nat → R) (prof : α → Nat → R) (t : PTree R α) : R :=
-  let v := plh m prof t
-  sumOver m (fun s => v s * π s)
+  dot m (plh m prof t) π
 
 /-- `BinnedSiteDistribution.get_weighted_sum_lh`: `result = 0; for bprob, lh in zip(bprobs, lhs): result += lh * bprob` -/
 def weightedSum : List R → List R → R
